@@ -1,12 +1,14 @@
 use crate::proto::Driver;
 use crate::{run_op, OpResult, RunCfg};
 
+pub mod cfg;
 pub mod common;
 pub mod req;
 
 pub fn dispatch(op: &str, cfg: &RunCfg, d: &mut Driver) -> Option<OpResult> {
     Some(match op {
         "req" => run_op::<req::ReqCase>(cfg, d),
+        "cfg" => run_op::<cfg::CfgCase>(cfg, d),
         _ => return None,
     })
 }
